@@ -91,9 +91,14 @@ def kv_oracle(desc, lines, impl):
         if kind in ("set", "put") and cls == "OkUnit" and d.get("src_left") != "0":
             bad.append(("%s succeeded but its source file still exists (step %d)" % (kind, st), "source-left"))
         if kind in ("ensure", "gou"):
-            # the judge / populate decide: the map follows what the write cache now holds
+            # the judge / populate decide: the map follows what the write cache now holds ...
             if name in present:
                 kv[name] = ("raw", present[name][0][1])
+                # ... but whatever the verdict (a hit accepted, promoted, or replaced by a fresh value),
+                # the value the call returned IS the key's value: a copy of the key in the write cache
+                # after a successful call holds exactly those bytes
+                if cls == "OkSome" and d.get("content") is not None and present[name][0][1] != d.get("content"):
+                    bad.append(("%s %s returned %s but the write cache now holds %s for that key (step %d)" % (kind, name, d.get("content"), present[name][0][1], st), "promoted-wrong"))
             else:
                 kv.pop(name, None)
         # what is on disk for a key the map knows must be the map's value
